@@ -105,6 +105,7 @@ def pure_os(**extra):
     o.path.abspath = posixpath.normpath          # evaluations hand in absolute paths
     o.sep = '/'
     o.linesep = '\n'
+    o.SEEK_SET, o.SEEK_CUR, o.SEEK_END = 0, 1, 2
     for k, v in extra.items():
         tgt = o.path if k.startswith('path_') else o
         setattr(tgt, k[5:] if k.startswith('path_') else k, v)
@@ -125,15 +126,36 @@ class FakeFS(Model):
             def __init__(self, path, mode, newline=None):
                 self.path, self.mode, self.newline = path, mode, newline
                 self.buf = b'' if 'b' in mode else ''
+                self.pos = 0
+                self.encoding = None
 
             def _content(self):
                 c = fs.files[self.path]
+                if isinstance(c, str) and 'b' in self.mode:
+                    c = c.encode('utf-8')            # a text file opened in binary mode
+                if isinstance(c, bytes) and 'b' not in self.mode:
+                    c = c.decode(self.encoding or 'utf-8')
                 if isinstance(c, str) and 'b' not in self.mode and self.newline is None:
                     c = c.replace('\r\n', '\n').replace('\r', '\n')      # text mode reads with universal newlines
                 return c
 
-            def read(self):
-                return self._content()
+            def read(self, n=-1):
+                c = self._content()
+                start = self.pos
+                end = len(c) if n is None or n < 0 else min(len(c), start + n)
+                self.pos = end
+                return c[start:end]
+
+            def seek(self, off, whence=0):
+                size = len(self._content())
+                new = off if whence == 0 else (self.pos + off if whence == 1 else size + off)
+                if new < 0:
+                    raise OSError(22, 'Invalid argument')
+                self.pos = new
+                return new
+
+            def tell(self):
+                return self.pos
 
             def readlines(self):
                 c = self._content()
@@ -169,7 +191,9 @@ class FakeFS(Model):
                 return h
             if path not in fs.files:
                 raise FileNotFoundError(2, 'No such file or directory', path)
-            return Handle(path, mode, k.get('newline'))
+            h = Handle(path, mode, k.get('newline'))
+            h.encoding = k.get('encoding')
+            return h
         open_._pyeval_model = True
         self.open = open_
 
